@@ -165,6 +165,14 @@ func (ipcp *IPCPStateMachine) setState(newState IPCPState) {
 	oldState := ipcp.state
 	ipcp.state = newState
 
+	// The restart timer runs only while a Configure- or Terminate-Request is
+	// outstanding (RFC 1661 section 4.6): it is stopped on entering a state
+	// without one, not by every packet that happens to arrive.
+	switch newState {
+	case IPCPStateInitial, IPCPStateStarting, IPCPStateClosed, IPCPStateStopped, IPCPStateOpened:
+		ipcp.stopTimer()
+	}
+
 	ipcp.logger.Debug("IPCP state change",
 		zap.String("from", oldState.String()),
 		zap.String("to", newState.String()),
@@ -487,8 +495,6 @@ func (ipcp *IPCPStateMachine) receiveConfigureAck(pkt *LCPPacket) error {
 		return nil
 	}
 
-	ipcp.stopTimer()
-
 	switch ipcp.state {
 	case IPCPStateClosed, IPCPStateStopped:
 		ipcp.sendTerminateAck(pkt.Identifier)
@@ -514,8 +520,6 @@ func (ipcp *IPCPStateMachine) receiveConfigureNak(pkt *LCPPacket) error {
 	if pkt.Identifier != ipcp.lastIdentifier {
 		return nil
 	}
-
-	ipcp.stopTimer()
 
 	// Process NAK options
 	opts, err := ParseLCPOptions(pkt.Data)
@@ -556,8 +560,6 @@ func (ipcp *IPCPStateMachine) receiveConfigureReject(pkt *LCPPacket) error {
 		return nil
 	}
 
-	ipcp.stopTimer()
-
 	// Process rejected options - stop sending them
 	opts, _ := ParseLCPOptions(pkt.Data)
 	for _, opt := range opts {
@@ -585,8 +587,6 @@ func (ipcp *IPCPStateMachine) receiveConfigureReject(pkt *LCPPacket) error {
 
 // receiveTerminateRequest handles incoming Terminate-Request
 func (ipcp *IPCPStateMachine) receiveTerminateRequest(pkt *LCPPacket) error {
-	ipcp.stopTimer()
-
 	switch ipcp.state {
 	case IPCPStateClosed, IPCPStateStopped, IPCPStateClosing, IPCPStateStopping:
 		ipcp.sendTerminateAck(pkt.Identifier)
@@ -604,8 +604,6 @@ func (ipcp *IPCPStateMachine) receiveTerminateRequest(pkt *LCPPacket) error {
 
 // receiveTerminateAck handles incoming Terminate-Ack
 func (ipcp *IPCPStateMachine) receiveTerminateAck(pkt *LCPPacket) error {
-	ipcp.stopTimer()
-
 	switch ipcp.state {
 	case IPCPStateClosing:
 		ipcp.setState(IPCPStateClosed)
